@@ -8,7 +8,7 @@ TRUSTED = {
           'and by the exhaustive scalar enumeration of BEC contract C10.display_width.scalar',
     'A3': 'A3 allocation bound: a str/String has at most isize::MAX bytes, a Vec at most isize::MAX elements',
     'A4': 'A4 documented std behaviour of the transparent wrappers (vx_* functions whose body is the std call: slicing, find, trim_end_matches, split, '
-          'repeat, Cow operations, mem::take, ...), vstd\'s own assume_specifications and vstd::utf8; in U9 also one axiom about a std function that is otherwise abstract there: '
+          'repeat, Cow operations, mem::take, ...), vstd\'s own assume_specifications and vstd::utf8; in U9 also two axioms about std functions that are otherwise abstract there: '
           'str::lines(s) is lines_c(s) (the \'\\n\'-separated pieces, a terminated piece without one \'\\r\' before its \'\\n\', the unterminated last piece as it is — carriage return included — and dropped when empty) — checked literally on the real str::lines within scope by the bounded contract A4.std_models — and char::is_whitespace(\'\\r\') (cr_is_ws)',
     'A5': 'A5 Fragment accessors are pure (each accessor returns its ghost twin)',
     'A6': 'A6 (discharged as far as shape and safety go) smawk::online_column_minima(init, n, f) calls f(m, i, j) only with i < j < n, i < m.len() and a well-shaped table m, never panics, '
